@@ -6,6 +6,7 @@ package main
 import (
 	"fmt"
 	"go/constant"
+	"go/types"
 	"sort"
 	"strings"
 
@@ -25,6 +26,11 @@ func watchEVM(ci ssa.CallInstruction) string {
 	}
 	for _, a := range ci.Common().Args {
 		if c, ok := a.(*ssa.Const); ok && c.Value != nil && c.Value.Kind() == constant.String {
+			// (an ABI method name is handed over as a plain string; a module-defined label
+			// type that happens to spell "mint" - an operation tag of a checker - is not one)
+			if _, plain := c.Type().(*types.Basic); !plain {
+				continue
+			}
 			switch constant.StringVal(c.Value) {
 			case "mint":
 				return "evm:mint"
@@ -268,7 +274,8 @@ func (cx *Ctx) balanceRecheck(r *Report, x c10ev, op string, name string) {
 	for _, b := range exits {
 		found := false
 		for _, ft := range w.exitFacts(x.ev.Fr, b, 0) {
-			if !ft.Holds && strings.Contains(ft.Text, "big.Int.Cmp(big.Int."+op+"(") && strings.Contains(ft.Text, "!= 0") {
+			// (a.Cmp(b) != 0 and b.Cmp(a) != 0 are the same test)
+			if !ft.Holds && strings.Contains(ft.Text, "big.Int.Cmp(") && strings.Contains(ft.Text, "big.Int."+op+"(") && !strings.Contains(ft.Text, "big.Int."+map[string]string{"Add": "Sub", "Sub": "Add"}[op]+"(") && strings.Contains(ft.Text, "!= 0") {
 				found = true
 			}
 		}
